@@ -448,6 +448,81 @@ def selectors(rep):
     rep.end_kernel()
 
 
+def h_tiny(mods, shape, blank):
+    """the WHOLE real estimate_lmfit_parinfo on a tiny single-sign island (the route without scipy labelling) and on its
+    negation: same number of components, same positions, negated amplitudes, mirrored amplitude limits, same shape limits,
+    flags and free/fixed pattern"""
+    from checks import r2c
+    sf = mods['source_finder']
+
+    def h(c):
+        sf.lmfit = type('LM', (), {'Parameters': r2c.Model})
+
+        class Beam3:
+            def __init__(self, a, b, pa):
+                self.a, self.b, self.pa = a, b, pa
+        sf.Beam = Beam3
+        R, C = shape
+        sgn = real('sgn')
+        c.assume(z3.Or(sgn.e == 1, sgn.e == -1))
+        data = real_np.empty(shape, dtype=object)
+        rms = real_np.empty(shape, dtype=object)
+        for i in range(R):
+            for j in range(C):
+                if (i, j) in blank:
+                    data[i, j] = float('nan')
+                else:
+                    data[i, j] = real('d_%d_%d' % (i, j))
+                    c.assume(data[i, j].e * sgn.e > 0)
+                rms[i, j] = real('r_%d_%d' % (i, j))
+                c.assume(rms[i, j].e > 0)
+        curve = real_np.zeros(shape)
+        ic, oc = real('innerclip'), real('outerclip')
+        c.assume(z3.And(oc.e > 0, ic.e >= oc.e))
+        pa_, pb_ = real('beam_a'), real('beam_b')
+        c.assume(z3.And(pb_.e > 0, pa_.e >= pb_.e))
+        F2C = real('FWHM2CC')
+        c.assume(z3.And(F2C.e > z3.RealVal('0.42'), F2C.e < z3.RealVal('0.43')))
+        sf.FWHM2CC = F2C
+        sf.CC2FHWM = 1 / F2C
+
+        class PH:
+            def get_psf_pix2pix(self, y, x):
+                return (pa_, pb_, real('beam_pa'))
+        outs = []
+        for sign in (1, -1):
+            finder = sf.SourceFinder(log=loader.NullLog())
+            finder.global_data.psfhelper = PH()
+            d = real_np.empty(shape, dtype=object)
+            for idx in real_np.ndindex(shape):
+                d[idx] = data[idx] if sign == 1 or not isinstance(data[idx], SN) else -data[idx]
+            p = finder.estimate_lmfit_parinfo(d, rms, curve, None, ic, outerclip=oc, offsets=(3, 4))
+            outs.append(p)
+        A, B = outs
+        tag = 'estimate_lmfit_parinfo[%dx%d island%s]' % (R, C, ', one blank' if blank else '')
+        if A is None or B is None:
+            c.oblige(tag + ':an island and its negation both give a model (or neither)', z3.BoolVal(A is None and B is None))
+            return dict()
+        na, nb = A['components'].value, B['components'].value
+        c.oblige(tag + ':same number of components for the island and its negation', z3.BoolVal(int(na) == int(nb)), info='%s vs %s' % (na, nb))
+        L = core.lift
+        for k in range(min(int(na), int(nb))):
+            pre = 'c%d_' % k
+            cl = [L(A[pre + 'xo'].value) == L(B[pre + 'xo'].value), L(A[pre + 'yo'].value) == L(B[pre + 'yo'].value), L(A[pre + 'amp'].value) + L(B[pre + 'amp'].value) == 0]
+            c.oblige(tag + ':component %d at the same pixel with the negated amplitude' % k, z3.And(cl))
+            c.oblige(tag + ':component %d amplitude limits mirrored' % k, z3.And(L(A[pre + 'amp'].min) + L(B[pre + 'amp'].max) == 0, L(A[pre + 'amp'].max) + L(B[pre + 'amp'].min) == 0))
+            same = []
+            for q in ('xo', 'yo', 'sx', 'sy'):
+                same += [L(A[pre + q].min) == L(B[pre + q].min), L(A[pre + q].max) == L(B[pre + q].max)]
+            same += [L(A[pre + 'sx'].value) == L(B[pre + 'sx'].value), L(A[pre + 'sy'].value) == L(B[pre + 'sy'].value)]
+            c.oblige(tag + ':component %d position/shape values and limits identical' % k, z3.And(same))
+            c.oblige(tag + ':component %d flags and free/fixed pattern identical' % k, z3.BoolVal(int(A[pre + 'flags'].value) == int(B[pre + 'flags'].value) and
+                                                                                                   all(bool(A[pre + q].vary) == bool(B[pre + q].vary) for q in ('amp', 'xo', 'yo', 'sx', 'sy', 'theta'))))
+            c.oblige(tag + ':component %d amplitude within its limits' % k, z3.And(L(A[pre + 'amp'].min) <= L(A[pre + 'amp'].value), L(A[pre + 'amp'].value) <= L(A[pre + 'amp'].max)))
+        return dict(components=int(na))
+    return h
+
+
 def h_errsign(mods, varyname):
     """the real fitting.errors on a component and on its negation (amplitude, peak and integrated flux negated, everything
     else -- shape, position, standard errors, WCS answers -- identical): every reported uncertainty must be the same"""
@@ -578,6 +653,27 @@ def run(rep):
         rep.finding('C13/K-polarity-filter/%s' % cls, dict(kind='polarity-catalogue'), detail, kernel='K-polarity-filter')
     from checks import C03, r2c
     mods = r2c.sym_sf()
+    rep.kernel('K-tiny', functions=[F + ':SourceFinder.estimate_lmfit_parinfo'], bounds='the WHOLE function on single-sign islands 1x3, 2x2, 2x3 (one blank) with every pixel, noise, clip level and the pixel beam symbolic; the island and its negation in one path',
+               stubs=['lmfit.Parameters -> record class', 'psf helper -> symbolic pixel beam', 'np.nanmax/nanmin/nanarg* on object arrays -> proxies (forks)'],
+               outside=['islands large enough for the curvature/labelling route (scipy): K-selectors slices', 'mixed-sign islands (open finding)'])
+    tdone = False
+    for st, res in core.explore_many([(h_tiny(mods, sh, bl), dict(wall_s=300)) for sh, bl in (((1, 3), ()), ((2, 2), ()), ((2, 3), ((0, 0),)))], workers=8):
+        rep.stats(st)
+        for r in res:
+            for ob in r['obligations']:
+                rep.count(ob['result'], ob['name'])
+                if ob['result'] == 'sat' and not tdone:
+                    got = False
+                    for w in (tiny_island_witness(-1), tiny_island_witness(+1)):
+                        bad, cls, detail = replay_selector(w)
+                        if bad:
+                            got = True
+                            break
+                    if rep.finding('C13/K-tiny/%s' % (cls if got else ob['name'].split(':')[-1]), w if got else dict(kind='tiny'), detail if got else ob['name'], reproduced=got) != 'not-reproduced':
+                        tdone = True
+        if res:
+            rep.sample(dict(kernel='K-tiny', paths=len(res), obligations=[(o['name'].split(':')[-1], o['result']) for o in res[0]['obligations']][:8]))
+    rep.end_kernel()
     rep.kernel('K-errors-sign', functions=['AegeanTools/fitting.py:errors'], bounds='one component, free-parameter patterns all / stage 1 / stage 2, all parameters, standard errors, fluxes of either sign symbolic',
                stubs=['pix2sky / gcd / bear -> the same arbitrary answers in both runs (position and shape do not change under negation)'],
                outside=['the standard errors themselves being equal for the two fits (optimiser)'])
